@@ -173,7 +173,7 @@ impl Src {
             "kind": self.kind, "masters": self.pos, "axis_default": self.axis_default, "intermediate_location": self.sparse, "glyph_order": self.order,
             "glyphs": self.glyphs.iter().map(|g| json!({
                 "name": g.name, "export": g.export, "bases": g.bases,
-                "intermediate_source": g.sp.as_ref().map(|m| json!({"advance": m.adv, "contours": m.contours.iter().map(|c| c.iter().map(|p| json!([p.x, p.y, p.on])).collect::<Vec<_>>()).collect::<Vec<_>>()})),
+                "intermediate_source": g.sp.as_ref().map(|m| json!({"advance": m.adv, "transforms": m.xf, "contours": m.contours.iter().map(|c| c.iter().map(|p| json!([p.x, p.y, p.on])).collect::<Vec<_>>()).collect::<Vec<_>>()})),
                 "masters": g.m.iter().map(|m| json!({
                     "advance": m.adv,
                     "contours": m.contours.iter().map(|c| c.iter().map(|p| json!([p.x, p.y, p.on])).collect::<Vec<_>>()).collect::<Vec<_>>(),
